@@ -2,6 +2,7 @@
 import itertools
 import math
 import random
+from collections import Counter as PyCounter
 
 from .. import common
 from ..common import Violation, Counter
@@ -20,7 +21,7 @@ RULE = ("agent parameter grids x market states (price histories built by real tr
 WIT = ["fcn_buy", "fcn_sell", "fcn_nothing", "fcn_inaccessible", "fcn_clock_below_window", "fcn_mean_reversion_distinct",
        "share_choice_0", "share_choice_1", "share_zero_volume", "mm_quotes", "mm_base_from_market_price", "mm_inaccessible_market_ignored",
        "mm_market_order_on_top", "arb_no_action_within_threshold", "arb_gap_exactly_threshold", "arb_buy_index", "arb_sell_index",
-       "arb_not_running", "arb_two_indices_acted", "well_formed_orders"]
+       "arb_not_running", "arb_two_indices_acted", "test_agent_cases", "well_formed_orders"]
 
 
 class Sim:
@@ -371,6 +372,33 @@ def arb_fn(case, wit):
     return ("buy" if io[0].is_buy else "sell", ncomp)
 
 
+def test_agent_cases(tier):
+    for u in (2.0 ** -53, 0.25, 0.39999, 0.4, 0.6, 0.79999, 0.8, 1 - 2.0 ** -53):
+        for ints in (1, 50, 100):
+            for acc in ((0,), (1,), (0, 1), ()):
+                yield (u, ints, acc)
+
+
+def test_agent_fn(case, wit):
+    """TestAgent (built-in): one well-formed limit order per accessible market at most, never for an inaccessible one"""
+    from pams.agents.test_agent import TestAgent
+    u, ints, acc = case
+    sim = Sim()
+    ms = [mk_quote_market(sim, i, 100, (99, 101)) for i in range(2)]
+    a = TestAgent(6, StubRandom(u=u, ints=ints), sim, "t")
+    a.setup({"cashAmount": 1000, "assetVolume": 10}, list(acc))
+    orders = a.submit_orders(ms)
+    for o in orders:
+        well_formed(o, a, wit)
+        if o.market_id not in acc:
+            raise Violation("C20.well_formed", "a built-in agent emitted an order for a market it cannot access", "%r" % (case,))
+    per = PyCounter(o.market_id for o in orders)
+    if any(v > 1 for v in per.values()):
+        raise Violation("C20.test_agent", "TestAgent emitted several orders for one market in one consultation", "%r" % (case,))
+    wit.inc("test_agent_cases")
+    return (len(orders), acc)
+
+
 def arb2_cases(tier):
     for p2 in (99, 100, 103):          # price of the 2-component index (components 100, 102 -> computed 101)
         for p3 in (97, 101, 104):      # price of the 3-component index (components 100, 102, 98 -> computed 100)
@@ -415,7 +443,7 @@ def arb2_fn(case, wit):
     return (p2 != 101, p3 != 100, order)
 
 
-GRIDS = {"arbitrage_two_indices": arb2_fn, "fcn_long_lived_agent": fcn_persistent_fn, "fcn": fcn_fn, "market_share_fcn": share_fn, "market_maker": mm_fn, "arbitrage": arb_fn}
+GRIDS = {"test_agent": test_agent_fn, "arbitrage_two_indices": arb2_fn, "fcn_long_lived_agent": fcn_persistent_fn, "fcn": fcn_fn, "market_share_fcn": share_fn, "market_maker": mm_fn, "arbitrage": arb_fn}
 
 
 def run(tier, seed):
@@ -426,6 +454,7 @@ def run(tier, seed):
     run_grid(res, "market_maker", list(mm_cases(tier)), mm_fn, seed)
     run_grid(res, "arbitrage", list(arb_cases(tier)), arb_fn, seed)
     run_grid(res, "arbitrage_two_indices", list(arb2_cases(tier)), arb2_fn, seed)
+    run_grid(res, "test_agent", list(test_agent_cases(tier)), test_agent_fn, seed)
     cov = res.coverage
     cov["evaluations"] += cov["witness_classes"].get("fcn_cases", 0) + cov["witness_classes"].get("fcn_persistent_cases", 0)
     cov["grids"]["fcn"]["inner_cases_per_market_state"] = len(WEIGHTS) * len(INNER)
